@@ -138,6 +138,8 @@ def run(an: Analysis, rep):
     rep.run(r017, an, rep)
     from .common import identity_rule, rebuild_rule
     rep.run(identity_rule, an, rep, "R01.9", ["from_code", "to_code"])
+    from .common import old_interpreter_rule
+    rep.run(old_interpreter_rule, an, rep, "R01.V", ["from_code", "to_code"])
     rep.run(rebuild_rule, an, rep, "R01.8", ["from_code", "to_code"])
     rep.run(c09.duplicates_key_rule, an, SharedRules(rep, "R01.K", "table entries the encoder cannot tell apart by key keep their position (shared with C09's R09.2): otherwise re-encoding merges them"))
     rep.run(c09.seed_rules, an, SharedRules(rep, "R01.S", "what the decoder pre-marks in a table (docstring slot, parameter slots) is what the encoder pre-assigns (shared with C09's R09.2): otherwise the two sides number the remaining entries differently"))
@@ -256,6 +258,11 @@ def r01a(an: Analysis, rep, rule="R01.A", need="consumed"):
                 call = st.value
             elif isinstance(st, ast.Assign) and isinstance(st.value, ast.Call) and len(st.targets) == 1 and isinstance(st.targets[0], ast.Name):
                 call, target = st.value, st.targets[0].id
+                # `tuple(mapping.field.pop(...))`: the removal sits inside a conversion
+                inner = [c for c in ast.walk(st.value) if isinstance(c, ast.Call) and isinstance(c.func, ast.Attribute) and c.func.attr in ("pop", "popitem") and isinstance(c.func.value, ast.Attribute)
+                         and c.func.value.attr in dict_fields]
+                if inner and inner[0] is not call:
+                    call = inner[0]
             if call is None or not (isinstance(call.func, ast.Attribute) and call.func.attr in ("pop", "popitem", "clear") and isinstance(call.func.value, ast.Attribute)
                                     and call.func.value.attr in dict_fields):
                 continue
@@ -278,11 +285,27 @@ def r01a(an: Analysis, rep, rule="R01.A", need="consumed"):
                         cur = par
                     in_test_only = in_test_only and ok_u
                 disp = "rejected" if uses and in_test_only else ("consumed" if uses else "dropped")
+                partial = None
+                if disp == "consumed":
+                    # consumed on one branch of an if / else only?  every use sits in one arm, the other arm (which exists and does not leave the function / loop) has none
+                    for iff in ast.walk(f.node):
+                        if not (isinstance(iff, ast.If) and iff.orelse and iff.lineno > st.lineno):
+                            continue
+                        in_body = [u for u in uses if any(u is x for b_ in iff.body for x in ast.walk(b_))]
+                        in_else = [u for u in uses if any(u is x for b_ in iff.orelse for x in ast.walk(b_))]
+                        for mine, other_arm, neg in ((in_body, iff.orelse, True), (in_else, iff.body, False)):
+                            if mine and len(mine) == len(uses) and not any(isinstance(x, (ast.Return, ast.Raise, ast.Continue, ast.Break)) for b_ in other_arm for x in ast.walk(b_)):
+                                partial = (iff, neg)
+                    if partial is not None:
+                        disp = "consumed on one branch only"
             n += 1
             good = disp == "consumed" or (need == "not dropped" and disp == "rejected")
             rep.add(rule, f"{f.qual}::{fld} entries of the later code units of an instruction", good, loc(f.module, st),
                     f"disposition: {disp}" if good else
                     (f"`{norm_src(st)[:70]}` removes an entry of {fld} without using it: the line information of that code unit is silently lost" if disp == "dropped" else
+                     f"the entries of {fld} popped by `{norm_src(st)[:60]}` reach the data only when `{'not (' if not partial[1] else ''}{norm_src(partial[0].test)[:50]}{')' if not partial[1] else ''}`; on the other "
+                     f"branch they are dropped: zero-width line entries in front of such an instruction (statements the peephole pass removed behind a `return`, followed by `try:`) are merged on re-encoding, "
+                     f"co_lnotab (4,1)(0,1)(0,1) comes back as (4,3)" if disp == "consumed on one branch only" else
                      f"the entry of {fld} popped by `{norm_src(st)[:60]}` is only compared with the instruction's own and a difference raises: the data keeps ONE line per instruction, so a "
                      f"code object with a line boundary behind an EXTENDED_ARG prefix (3.8 / 3.9 peephole: 300 assignments, then `def f(a,\\n b=()): pass` - co_lnotab ends "
                      f"(8,2)(2,-1)) cannot be decoded")
